@@ -19,6 +19,7 @@ import (
 	"errors"
 	"os"
 	"strings"
+	"sync/atomic"
 
 	"github.com/casbin/casbin/v2/model"
 	"github.com/casbin/casbin/v2/persist"
@@ -28,7 +29,10 @@ import (
 // from file or save policy to file and supports loading of filtered policies.
 type FilteredAdapter struct {
 	*Adapter
-	filtered bool
+	// filtered is read and written with sync/atomic (0 = complete view, 1 = filtered):
+	// SyncedEnforcer.LoadPolicy calls the adapter while holding only the read lock, so two
+	// loads may set it concurrently
+	filtered int32
 }
 
 // Filter defines the filtering rules for a FilteredAdapter's policy. Empty values
@@ -46,7 +50,7 @@ type Filter struct {
 // NewFilteredAdapter is the constructor for FilteredAdapter.
 func NewFilteredAdapter(filePath string) *FilteredAdapter {
 	a := FilteredAdapter{}
-	a.filtered = true
+	atomic.StoreInt32(&a.filtered, 1)
 	a.Adapter = NewAdapter(filePath)
 	return &a
 }
@@ -56,7 +60,7 @@ func (a *FilteredAdapter) LoadPolicy(model model.Model) error {
 	err := a.Adapter.LoadPolicy(model)
 	if err == nil {
 		// only a completed full load makes the in-memory view complete
-		a.filtered = false
+		atomic.StoreInt32(&a.filtered, 0)
 	}
 	return err
 }
@@ -66,7 +70,7 @@ func (a *FilteredAdapter) LoadFilteredPolicy(model model.Model, filter interface
 	// The enforcer drops its previous view before calling this, so until a load completes
 	// the in-memory policy has to count as partial: a failed filtered load must not leave
 	// SavePolicy free to overwrite the store.
-	a.filtered = true
+	atomic.StoreInt32(&a.filtered, 1)
 	if filter == nil {
 		return a.LoadPolicy(model)
 	}
@@ -80,7 +84,7 @@ func (a *FilteredAdapter) LoadFilteredPolicy(model model.Model, filter interface
 	}
 	err := a.loadFilteredPolicyFile(model, filterValue, persist.LoadPolicyLine)
 	if err == nil {
-		a.filtered = true
+		atomic.StoreInt32(&a.filtered, 1)
 	}
 	return err
 }
@@ -110,12 +114,12 @@ func (a *FilteredAdapter) loadFilteredPolicyFile(model model.Model, filter *Filt
 
 // IsFiltered returns true if the loaded policy has been filtered.
 func (a *FilteredAdapter) IsFiltered() bool {
-	return a.filtered
+	return atomic.LoadInt32(&a.filtered) != 0
 }
 
 // SavePolicy saves all policy rules to the storage.
 func (a *FilteredAdapter) SavePolicy(model model.Model) error {
-	if a.filtered {
+	if atomic.LoadInt32(&a.filtered) != 0 {
 		return errors.New("cannot save a filtered policy")
 	}
 	return a.Adapter.SavePolicy(model)
